@@ -72,6 +72,17 @@ func (x *Exec) externGlobal(g *ssa.Global) (Value, bool) {
 		return x.errEOF(), true
 	case "io.ErrUnexpectedEOF":
 		return x.errUEOF(), true
+	case "io/fs.SkipDir", "io/fs.SkipAll", "io/fs.ErrNotExist", "io/fs.ErrExist", "io/fs.ErrInvalid", "io/fs.ErrPermission", "io/fs.ErrClosed":
+		// sentinel errors with a stable identity within a path
+		if x.sentinels == nil {
+			x.sentinels = map[string]Iface{}
+		}
+		if e, ok := x.sentinels[g.String()]; ok {
+			return e, true
+		}
+		e := x.newErrS(g.Name(), "")
+		x.sentinels[g.String()] = e
+		return e, true
 	}
 	return nil, false
 }
